@@ -224,6 +224,16 @@ def conversation(run, pv, rng, length, threshold, abrupt, label,
                                   decoy=label % 3 == 0)
         conn.vf_rng = rng
         conn.vf_short_reads = short_reads     # partial TCP delivery
+        if label % 5 == 2:
+            # a slow consumer: every packet costs the networking thread a
+            # moment, so the server's packets pile up in front of it
+            from minecraft.networking.packets import Packet as _P
+
+            def slow(_packet):
+                time.sleep(0.0005)
+            conn.register_packet_listener(slow, _P)
+            run.count('conversations.slow_listener')
+            w['slow_listener'] = True
         if warmup:
             conn.allowed_proto_versions = {warm_pv}
             conn.connect()
